@@ -14,8 +14,9 @@ def membrane_and_set(mix, case):
     P1, P2 = case.get('P1', 0.03), case.get('P2', 0.0003)
     Ea1, Ea2 = case.get('Ea1', 20000.0), case.get('Ea2', 60000.0)
     Texp = case.get('Texp', 323.15)
-    exps = [IdealExperiment(name='a', temperature=Texp, component=mix.first_component, permeance=Permeance(P1), activation_energy=Ea1),
-            IdealExperiment(name='b', temperature=Texp, component=mix.second_component, permeance=Permeance(P2), activation_energy=Ea2)]
+    eu = case.get('exp_units', 'kg/(m2*h*kPa)')
+    exps = [IdealExperiment(name='a', temperature=Texp, component=mix.first_component, permeance=Permeance(P1).convert(eu, mix.first_component), activation_energy=Ea1),
+            IdealExperiment(name='b', temperature=Texp, component=mix.second_component, permeance=Permeance(P2).convert(eu, mix.second_component), activation_energy=Ea2)]
     mem = Membrane(name='m', ideal_experiments=IdealExperiments(exps))
     Ts = [case.get('Tc', 323.15)] if case.get('curves', 'one') == 'one' else [313.15, 323.15, 333.15]
     curves = []
